@@ -63,9 +63,12 @@ package wkt
 //@   loop 1:
 //@     invariant lexOK(l) && l.wkt == old(l.wkt) && l.lastPos == old(l.lastPos) && l.lytStack == old(l.lytStack) && l.lastErr == old(l.lastErr)
 
+// a NUM token always carries a finite ordinate (an out-of-range literal is a lexing error)
 //@ func wktLex.num
 //@   requires lexOK(l) && yylval != nil
 //@   ensures lexOK(l) && l.wkt == old(l.wkt) && l.lytStack == old(l.lytStack)
+//@   ensures [finite] res == 57375 ==> ffinite(yylval.coord)
+//@   ensures [token] res == 57375 || (res == 0 && l.lastErr != nil)
 //@   modifies *l, *yylval
 //@   decreases *
 //@   loop 1:
